@@ -183,7 +183,7 @@ func genIter(g *gen, n int, tier string, w *bufio.Writer) {
 		case kind < 36:
 			tag = "tx"
 		case kind < 42:
-			tag = "boundedlast" // SeekToLast with an end bound: KF-C05-bounded-seektolast (kept a small, marked share)
+			tag = "boundedlast" // concentrates on SeekToLast under end bounds (repaired in 8151b8c; used everywhere else too)
 		}
 		fmt.Fprintf(w, "# case %d %s\n", c, tag)
 		fmt.Fprintln(w, "new")
@@ -234,6 +234,8 @@ func genIter(g *gen, n int, tier string, w *bufio.Writer) {
 				fmt.Fprintln(w, join("prefix", hx([]byte(iterPrefixes[g.intn(len(iterPrefixes))]))))
 			}
 			fmt.Fprintln(w, "collect")
+			// no SeekToLast over slice sources: the test double goes to its last POSITION, the adapters to the first
+			// version of the greatest key
 			g.cursorOps(w, keys, 4+g.intn(10), false)
 			fmt.Fprintln(w, "collect")
 		case "tx":
@@ -257,16 +259,13 @@ func genIter(g *gen, n int, tier string, w *bufio.Writer) {
 			}
 			fmt.Fprintln(w, strings.Join(parts, " "))
 			for r := 0; r < 2; r++ {
-				allowLast := true // SeekToLast under an end bound only in the boundedlast cases
 				if g.chance(1, 2) {
 					fmt.Fprintln(w, "build txiter")
 				} else {
-					hi := g.optTarget(keys)
-					allowLast = hi == "-"
-					fmt.Fprintln(w, join("build", "txrange", g.optTarget(keys), hi))
+					fmt.Fprintln(w, join("build", "txrange", g.optTarget(keys), g.optTarget(keys)))
 				}
 				fmt.Fprintln(w, "collect")
-				g.cursorOps(w, keys, 3+g.intn(6), allowLast)
+				g.cursorOps(w, keys, 3+g.intn(6), true)
 			}
 			for r := 0; r < 3; r++ {
 				fmt.Fprintln(w, g.scanLine(keys))
@@ -289,10 +288,8 @@ func genIter(g *gen, n int, tier string, w *bufio.Writer) {
 				case 1:
 					fmt.Fprintln(w, "build factory")
 				default:
-					// no end bound here when `last` may follow (see boundedlast)
-					fmt.Fprintln(w, join("build", "range", g.optTarget(keys), "-"))
+					fmt.Fprintln(w, join("build", "range", g.optTarget(keys), g.optTarget(keys)))
 				}
-				allowLast := true
 				switch g.intn(5) {
 				case 0:
 					fmt.Fprintln(w, join("prefix", hx([]byte(iterPrefixes[g.intn(len(iterPrefixes))]))))
@@ -303,10 +300,9 @@ func genIter(g *gen, n int, tier string, w *bufio.Writer) {
 					fmt.Fprintln(w, join("suffix", hx([]byte(iterSuffixes[g.intn(len(iterSuffixes))]))))
 				case 3:
 					fmt.Fprintln(w, join("bound", g.optTarget(keys), g.optTarget(keys)))
-					allowLast = false
 				}
 				fmt.Fprintln(w, "collect")
-				g.cursorOps(w, keys, 4+g.intn(10), allowLast)
+				g.cursorOps(w, keys, 4+g.intn(10), true)
 			}
 			for r := 0; r < 3; r++ {
 				fmt.Fprintln(w, g.scanLine(keys))
